@@ -590,7 +590,11 @@ def main(argv: list[str]) -> int:
     for key, n in sorted(agg.known_hits.items()):
         print(f"KNOWN-FINDING: property={prop} {key} ({n} runs) {agg.known_examples.get(key, '')[:300]}")
     if agg.violations:
-        cands = sorted(agg.violations, key=lambda v: v["index"])[:STOP_AFTER_CANDIDATES]
+        cands = []
+        for v in sorted(agg.violations, key=lambda v: v["index"]):
+            if all(c["index"] != v["index"] for c in cands):  # one candidate per violating RUN
+                cands.append(v)
+        cands = cands[:STOP_AFTER_CANDIDATES]
         unconfirmed = []
         for vio in cands:
             print(f"violation candidate at run {vio['index']}: {vio['sig']} :: {vio['detail'][:600]}")
